@@ -22,7 +22,7 @@ import ast
 
 from ..repo import AnalysisError, own_nodes
 from .roles import dispatcher_roles, schedule_attr, machine_id_attr
-from .common import DISPATCHER, resolve_root
+from .common import only_called_from, DISPATCHER, resolve_root
 
 MANIFEST = {
     "text": (
@@ -54,7 +54,7 @@ def _rel(e):
 
 
 def _is_readiness(ev):
-    t = _CTX[0].norm.xtext(ev.fi, ev.node) if _CTX else ev.data.get("text", "")
+    t = (_CTX[0].norm.xtext(ev.fi, ev.node) + " " + ast.unparse(ev.node)) if _CTX and isinstance(ev.node, ast.AST) else ev.data.get("text", "")
     idx = dispatcher_roles(_CTX[0])["job_index"] if _CTX else "_job_next_operation_index"
     return ev.kind == "branch" and ("is_operation_ready" in t or ((idx in t or "job_next_operation_index" in t) and "position_in_job" in t))
 
@@ -227,7 +227,7 @@ def run(ctx):
             if t is add:
                 callers.append((fi, ev))
     for fi, ev in callers:
-        if fi is dispatch:
+        if fi is dispatch or only_called_from(ctx, fi, {dispatch}):
             chk.ok("R01.b", fi.qualname, ev.loc, "Schedule.add called from Dispatcher.dispatch")
         else:
             chk.violation(
